@@ -468,12 +468,14 @@ def run_impl_lines(exe, workdir, lines, pre_args=(), timeout=1800, env=None, per
 # Shrinking
 # ----------------------------------------------------------------------------
 
-def shrink_list(items, fails, max_tests=400):
-    """Delta debugging: smallest sublist (order kept) for which fails() holds."""
+def shrink_list(items, fails, max_tests=400, budget_s=240):
+    """Delta debugging: smallest sublist (order kept) for which fails() holds
+    (bounded by a number of tests and by wall time)."""
     items = list(items)
     tests = 0
     n = 2
-    while len(items) >= 2 and tests < max_tests:
+    t_end = time.time() + budget_s
+    while len(items) >= 2 and tests < max_tests and time.time() < t_end:
         chunk = max(1, len(items) // n)
         reduced = False
         for i in range(0, len(items), chunk):
